@@ -1293,6 +1293,133 @@ def c02_driver_step(K, frozen=()):
     return go()
 
 
+def c02_driver_two_steps(K):
+    """Integration.{one..five}_pops with every parameter a function of time, in the situation where the integration takes exactly TWO time steps
+    (the first _compute_dt answer d of population 1 satisfies 0 < d < T - initial_t <= 2d and is the smallest of the K answers; at the second step
+    every answer is >= T - initial_t - d).  The loop re-evaluates everything at every step:
+      * _compute_dt is called K times per step (2K in all); the calls of step s get the sizes, rates, selection and dominance of population k at the
+        *current* time of that step (initial_t, then initial_t + d);
+      * step 1: influx with this_dt = d and theta0(initial_t + d), then the sweeps with the parameters at initial_t + d and dt = d;
+      * step 2: influx with this_dt = T - initial_t - d and theta0(T), then the sweeps with the parameters at T and that dt;
+      * each operation is fed the previous one's result and the last sweep's result is returned.
+    (c02_driver_step covers the single-step situation, frozen populations and the flags.)"""
+    name = {1: 'one_pop', 2: 'two_pops', 3: 'three_pops', 4: 'four_pops', 5: 'five_pops'}[K]
+    oid = 'C02/Integration.py:%s/two-steps' % name
+    fn = 'dadi/Integration.py::' + name
+
+    @guarded(oid, fn)
+    def go():
+        sfx = (lambda k: '') if K == 1 else (lambda k: str(k))
+        T, t0, d1 = z3.Reals('T t0 d_first')
+        hy = [T > t0, d1 > 0, d1 < T - t0, T - t0 <= 2 * d1]      # (the last clause only keeps a driver that re-uses a stale step within two steps too)
+        t1 = t0 + d1
+        kw = {}
+        fsym = {}
+
+        def tf(nm):
+            f_ = uf(nm + '_of_t')
+            fsym[nm] = f_
+            return PyFn(lambda t, _f=f_: _f(to_real(t)), nm + '_f')
+        for k in range(1, K + 1):
+            for base in ('nu', 'gamma', 'h'):
+                kw[base + sfx(k)] = tf(base + sfx(k))
+            for j in range(1, K + 1):
+                if j != k:
+                    kw['m%d%d' % (k, j)] = tf('m%d%d' % (k, j))
+        kw['theta0'] = tf('theta0')
+        if K == 1:
+            kw['beta'] = tf('beta')
+        kw['initial_t'] = t0
+        dts = []
+
+        def policy(fr):
+            if fr.qualname == 'ensure_1arg_func':
+                return lambda ex_, f_, a, k_: a[0] if not is_scalar(exact(a[0])) else PyFn(lambda t, _c=a[0]: _c, 'const')
+            if fr.qualname == '_compute_dt':
+                def cdt(ex_, f_, a, k_):
+                    i = len(dts)
+                    dts.append(list(a))
+                    if i == 0:
+                        return d1
+                    d = ex_.ctx.fresh('dt')
+                    ex_.ctx.pc.append(d >= d1 if i < K else d >= T - t1)
+                    return d
+                return cdt
+            return 'abstract'
+        ex = Executor(policy=policy, max_paths=64)
+        ex.module_overrides[('dadi.Integration', 'cuda_enabled')] = False
+        ex.module_overrides[('dadi.Integration', 'use_delj_trick')] = z3.Bool('use_delj_trick')
+        f = ex.func('dadi/Integration.py', name)
+        phi, xx = Tm('phi'), Tm('xx')
+
+        def thunk(e):
+            del dts[:]
+            return e.apply(f.node, None, f.mod, [phi, xx, T], dict(kw), name), list(dts)
+        paths = ex.explore(thunk, base_pc=hy)
+        rets = [p for p in paths if p.outcome == 'return']
+        out = []
+        if len(rets) != 1:          # (the other paths are the refusals of negative / zero sizes, rates or theta0)
+            return [struct(oid, False, 'expected exactly one returning path: %r' % [(p.outcome, vrepr(p.value)[:80]) for p in paths[:4]], fn,
+                           finding_key='C02/driver/%s/two-steps' % name)]
+        p = rets[0]
+        res, dtcalls = p.value
+        at = lambda nm, tt: fsym[nm](tt)
+        axes = 'xyzab'
+        calls = [(nm, t) for (tag, nm, t) in [e for e in p.log if e[0] == 'call']]
+        seq = [(nm, t) for nm, t in calls if nm == 'dadi.Integration._inject_mutations_%dD' % K or 'implicit_' in nm]
+        shape = [('inject' if 'inject' in nm else nm.split('implicit_')[1].rstrip(')')) for nm, t in seq]
+        want_shape = (['inject'] + ['%dD%s' % (K, axes[k]) for k in range(K)]) * 2
+        out.append(struct(oid + '.operations', shape == want_shape and len(dtcalls) == 2 * K,
+                          'two rounds of (influx, sweeps 1..K) and %d _compute_dt calls (got %s, %d calls)' % (2 * K, shape, len(dtcalls)), fn,
+                          finding_key='C02/driver/%s/two-steps' % name))
+        if not (shape == want_shape and len(dtcalls) == 2 * K):
+            return out
+        goals = []
+        for s_, tcur in ((0, t0), (1, t1)):
+            for k, a in zip(range(1, K + 1), dtcalls[s_ * K:(s_ + 1) * K]):
+                lab = 'step %d _compute_dt[%d]' % (s_ + 1, k)
+                goals.append((to_real(a[1]) == at('nu' + sfx(k), tcur), lab + '.nu at the current time'))
+                goals.append((to_real(a[3]) == at('gamma' + sfx(k), tcur), lab + '.gamma at the current time'))
+                goals.append((to_real(a[4]) == at('h' + sfx(k), tcur), lab + '.h at the current time'))
+                ms = a[2].items if isinstance(a[2], VList) else list(a[2])
+                want_ms = [at('m%d%d' % (k, j), tcur) for j in range(1, K + 1) if j != k] or [z3.RealVal(0)]
+                if len(ms) != len(want_ms):
+                    goals.append((z3.BoolVal(False), lab + ' gets %d migration rates' % len(ms)))
+                else:
+                    for x, y in zip(ms, want_ms):
+                        goals.append((to_real(exact(x)) == y, lab + '.ms at the current time'))
+        mm = discharge(goals, list(hy) + list(p.pc))
+        out.append(struct(oid + '.compute_dt-args', mm is None, mm or 'every step recomputes the time step from the parameters at its own current time', fn,
+                          finding_key='C02/driver/%s/two-steps' % name))
+        prev = None
+        for s_, (tnext, dt_want) in enumerate(((t1, d1), (T, T - t1))):
+            inj = seq[s_ * (K + 1)][1]
+            d = dict(zip(inj.attrs['__argnames__'], inj.args))
+            goals = [(to_real(d['dt']) == dt_want, 'step %d: this_dt' % (s_ + 1)), (to_real(d['theta0']) == at('theta0', tnext), 'step %d: theta0 at next_t' % (s_ + 1))]
+            okp = True if prev is None else (d['phi'] is prev or vrepr(d['phi']) == vrepr(prev))
+            prev = d['phi']
+            for k in range(1, K + 1):
+                nm, t = seq[s_ * (K + 1) + k]
+                pos = [x for x in t.args if not (isinstance(x, tuple) and x and x[0] == 'kw')]
+                okp = okp and (pos[0] is prev or vrepr(pos[0]) == vrepr(prev))
+                body = pos[1 + K:]
+                want = [at('nu' + sfx(k), tnext)] + [at('m%d%d' % (k, j), tnext) for j in range(1, K + 1) if j != k] + \
+                       [at('gamma' + sfx(k), tnext), at('h' + sfx(k), tnext)] + ([at('beta', tnext)] if K == 1 else []) + [dt_want]
+                if len(body) < len(want):
+                    goals.append((z3.BoolVal(False), 'step %d kernel %s gets %d scalar arguments' % (s_ + 1, nm, len(body))))
+                else:
+                    for x, y, lab in zip(body, want, ['nu'] + ['m'] * (K - 1) + ['gamma', 'h'] + (['beta'] if K == 1 else []) + ['dt']):
+                        goals.append((to_real(exact(x)) == y, 'step %d kernel %dD%s %s' % (s_ + 1, K, axes[k - 1], lab)))
+                prev = t
+            mm = discharge(goals, list(hy) + list(p.pc))
+            out.append(struct('%s.step%d' % (oid, s_ + 1), mm is None and okp, mm or ('influx then sweeps with the parameters at the end of the step and this step\'s dt, each fed the previous result'
+                                                                                      if okp else 'an operation is not fed the previous one\'s result'), fn,
+                              finding_key='C02/driver/%s/two-steps' % name))
+        out.append(struct(oid + '.returns-last', res is prev, 'returns the last sweep\'s result', fn))
+        return out
+    return go()
+
+
 # ---------------------------------------------------------------- C02: the constant-parameter 1-D driver assembles the same system as the C kernel contract
 def c02_const_1d(n):
     """_one_pop_const_params on a grid of n symbolic points, one step (T - initial_t <= dt); _compute_delj by its contract (entry k = delj(M, dx, V) at
@@ -2966,6 +3093,81 @@ def c02_const_kd(K, n, frozen=()):
                 for nm_, arr_, want in (('a', A, sa), ('b', B, sb), ('c', C, sc)):
                     out.append(prove_eq('%s.%s[%s]' % (tag, nm_, ','.join(map(str, idx))), pc, to_real(exact(_nd_get(arr_, idx))), want, fn, timeout_ms=30000,
                                         finding_key='C02/const%dd/%s' % (K, nm_), z3_first_ms=250))
+        return out
+    return go()
+
+
+def c02_const_dispatch(K):
+    """Integration.{one_pop,two_pops,three_pops} with every parameter a scalar (all symbolic; T > initial_t, initial_t not assumed 0; frozen / nomut
+    flags symbolic booleans): on every returning path that integrates, the call is handed to _K_pops_const_params with EVERY parameter the two
+    functions share bound to the caller's value of the same name (T is the end time and initial_t the start time, both forwarded unchanged; sizes,
+    rates, selection, dominance, theta0, beta, frozen and nomut flags each to its own slot), phi a copy of the caller's phi, and the callee's
+    result is what is returned."""
+    name = {1: 'one_pop', 2: 'two_pops', 3: 'three_pops'}[K]
+    callee = '_%s_const_params' % {1: 'one_pop', 2: 'two_pops', 3: 'three_pops'}[K]
+    oid = 'C02/Integration.py:%s/const-dispatch' % name
+    fn = 'dadi/Integration.py::' + name
+
+    @guarded(oid, fn)
+    def go():
+        T, t0 = z3.Reals('T t0')
+        hy = [T > t0]
+        ex = Executor(policy=lambda fr: 'abstract', max_paths=512)
+        ex.module_overrides[('dadi.Integration', 'cuda_enabled')] = False
+        f = ex.func('dadi/Integration.py', name)
+        g = ex.func('dadi/Integration.py', callee)
+        a_f = [x.arg for x in f.node.args.args]
+        a_g = [x.arg for x in g.node.args.args]
+        shared = [n for n in a_f if n in a_g and n not in ('phi', 'xx')]
+        kw = {}
+        for n in shared:
+            if n == 'T':
+                continue
+            if n == 'initial_t':
+                kw[n] = t0
+            elif n.startswith('frozen') or n.startswith('nomut'):
+                kw[n] = z3.Bool(n)
+            else:
+                kw[n] = z3.Real(n)
+        phi, xx = Tm('phi'), Tm('xx')
+        paths = ex.run(f, [phi, xx, T], kw, base_pc=hy)
+        out = []
+        rets = [p for p in paths if p.outcome == 'return']
+        integ = []
+        for p in rets:
+            cs = [e[2] for e in p.log if e[0] == 'call' and str(e[1]).endswith('.' + callee)]
+            if cs:
+                integ.append((p, cs))
+        out.append(struct(oid + '.reached', bool(integ), '%d of %d returning paths call %s' % (len(integ), len(rets), callee), fn,
+                          finding_key='C02/const-dispatch/%s' % name))
+        for pi, (p, cs) in enumerate(integ):
+            o = '%s.path%d' % (oid, pi)
+            t = cs[0]
+            names = t.attrs.get('__argnames__')
+            if len(cs) != 1 or names is None:
+                out.append(struct(o, False, '%d calls of %s' % (len(cs), callee), fn, finding_key='C02/const-dispatch/%s' % name))
+                continue
+            d = dict(zip(names, t.args))
+            goals = []
+            bad = []
+            for n in shared:
+                want = T if n == 'T' else kw[n]
+                got = exact(d[n])
+                if isinstance(got, bool):
+                    got = z3.BoolVal(got)
+                if not isinstance(got, z3.ExprRef):
+                    bad.append('%s is %s' % (n, vrepr(got)[:40]))
+                elif z3.is_bool(want):
+                    goals.append((got == want if z3.is_bool(got) else z3.BoolVal(False), '%s forwarded to %s' % (n, n)))
+                else:
+                    goals.append((to_real(got) == want, '%s forwarded to %s' % (n, n)))
+            ok_phi = isinstance(d['phi'], Tm) and 'copy' in d['phi'].op and d['phi'] is not phi
+            ok_ret = p.value is t
+            mm = discharge(goals, list(hy) + list(p.pc))
+            det = mm or (', '.join(bad) if bad else None) or (None if ok_phi else 'phi handed over is not a copy of the caller\'s') or \
+                (None if ok_ret else 'the value returned is not the constant-parameter integrator\'s result')
+            out.append(struct(o + '.arguments', det is None, det or '%s(copy of phi, xx, %s) each from the caller\'s parameter of the same name; its result returned'
+                              % (callee, ', '.join(shared)), fn, finding_key='C02/const-dispatch/%s' % name))
         return out
     return go()
 
